@@ -33,7 +33,12 @@ pub mod io {
 }
 
 /// every stand-in future is awaited through this trait (N2 turns `.await` on non-repository futures into `.vx_await()`)
-pub trait VxFuture { type Output; fn vx_await(self) -> Self::Output; }
+pub trait VxFuture {
+    type Output;
+    /// what is known about the value the future resolves to
+    spec fn resolves_to(&self, out: &Self::Output) -> bool;
+    fn vx_await(self) -> (r: Self::Output) ensures self.resolves_to(&r);
+}
 
 pub mod sync {
     pub mod mpsc {
@@ -46,14 +51,21 @@ pub mod sync {
         impl<T> core::fmt::Debug for UnboundedReceiver<T> { #[verifier::external_body] fn fmt(&self, f: &mut core::fmt::Formatter<'_>) -> core::fmt::Result { Ok(()) } }
         impl<T> core::fmt::Debug for UnboundedSender<T> { #[verifier::external_body] fn fmt(&self, f: &mut core::fmt::Formatter<'_>) -> core::fmt::Result { Ok(()) } }
         pub mod error { pub struct SendError<T>(pub T); }
+        /// what every item travelling through a channel of this item type satisfies (fixed per item type by the crate that
+        /// owns the channel; required at every `send`, known at every `recv`)
+        pub uninterp spec fn chan_item_ok<T>(t: &T) -> bool;
         #[verifier::reject_recursive_types(T)]
         pub struct RecvFut<'a, T> { pub r: &'a mut UnboundedReceiver<T> }
         /// unbounded FIFO across all sender clones; `None` iff every sender is dropped and the queue is empty; cancel-safe
-        impl<'a, T> VxFuture for RecvFut<'a, T> { type Output = Option<T>; #[verifier::external_body] fn vx_await(self) -> Option<T> { unimplemented!() } }
+        impl<'a, T> VxFuture for RecvFut<'a, T> {
+            type Output = Option<T>;
+            open spec fn resolves_to(&self, out: &Option<T>) -> bool { *out matches Some(t) ==> chan_item_ok(&t) }
+            #[verifier::external_body] fn vx_await(self) -> (r: Option<T>) { unimplemented!() }
+        }
         impl<T> UnboundedReceiver<T> { pub fn recv(&mut self) -> RecvFut<'_, T> { RecvFut { r: self } } }
         impl<T> UnboundedSender<T> {
             /// `Err` iff the receiver was dropped
-            #[verifier::external_body] pub fn send(&self, t: T) -> Result<(), error::SendError<T>> { unimplemented!() }
+            #[verifier::external_body] pub fn send(&self, t: T) -> Result<(), error::SendError<T>> requires chan_item_ok(&t) { unimplemented!() }
             #[verifier::external_body] pub fn is_closed(&self) -> bool { unimplemented!() }
         }
         impl<T> Clone for UnboundedSender<T> { #[verifier::external_body] fn clone(&self) -> Self { unimplemented!() } }
@@ -73,7 +85,11 @@ pub mod sync {
         /// delivers to its paired receiver, or returns the value if that was dropped
         impl<T> Sender<T> { #[verifier::external_body] pub fn send(self, t: T) -> Result<(), T> { unimplemented!() } }
         /// yields the value sent by the paired sender, `Err` if the sender was dropped without sending
-        impl<T> VxFuture for Receiver<T> { type Output = Result<T, error::RecvError>; #[verifier::external_body] fn vx_await(self) -> Result<T, error::RecvError> { unimplemented!() } }
+        impl<T> VxFuture for Receiver<T> {
+            type Output = Result<T, error::RecvError>;
+            open spec fn resolves_to(&self, out: &Result<T, error::RecvError>) -> bool { true }
+            #[verifier::external_body] fn vx_await(self) -> Result<T, error::RecvError> { unimplemented!() }
+        }
         #[verifier::external_body] pub fn channel<T>() -> (r: (Sender<T>, Receiver<T>)) ensures sender_id(&r.0) == receiver_id(&r.1) { unimplemented!() }
     }
 }
@@ -83,8 +99,12 @@ pub mod time {
     pub mod error { pub struct Elapsed; }
     pub struct Timeout<F> { pub f: F }
     /// Err(Elapsed) leaves the inner future un-run (nothing is consumed)
-    impl<F: VxFuture> VxFuture for Timeout<F> { type Output = Result<F::Output, error::Elapsed>; #[verifier::external_body] fn vx_await(self) -> Result<F::Output, error::Elapsed> { unimplemented!() } }
-    pub fn timeout<F: VxFuture>(d: std::time::Duration, f: F) -> Timeout<F> { Timeout { f } }
+    impl<F: VxFuture> VxFuture for Timeout<F> {
+        type Output = Result<F::Output, error::Elapsed>;
+        open spec fn resolves_to(&self, out: &Result<F::Output, error::Elapsed>) -> bool { *out matches Ok(v) ==> self.f.resolves_to(&v) }
+        #[verifier::external_body] fn vx_await(self) -> Result<F::Output, error::Elapsed> { unimplemented!() }
+    }
+    pub fn timeout<F: VxFuture>(d: std::time::Duration, f: F) -> (r: Timeout<F>) ensures r.f == f { Timeout { f } }
 }
 /// arbitrary choice made by `select!` (N3): any polling order, no fairness
 #[verifier::external_body] pub fn vx_select2() -> bool { unimplemented!() }
